@@ -20,7 +20,7 @@ def thorough_extras(R, pid):
 
 # seeded mutants (tools/mutants.py) that each property's VC part has to catch; harmless ones must stay green
 MUTANTS_FOR = {
-    "C16": ["m10", "m28", "m44", "m45", "m46", "m48", "h60"], "C03": ["m10", "m11b", "m7", "m11"], "C04": ["m12", "m13", "m14", "m15"],
+    "C16": ["m10", "m28", "m44", "m45", "m46", "m48", "h60"], "C03": ["m10", "m11b", "m7", "m11"], "C04": ["m12", "m13", "m14", "m15", "m50", "m51"],
     "C02": ["m6", "m7", "m4"], "C01": ["m2", "m4"], "C05": ["m2"], "C06": ["m19", "m6"], "C07": ["m21", "m23"], "C08": ["m25"],
     "C10": ["m28", "m31"], "C11": ["m31"], "C12": ["m6", "m35"], "C15": ["m41"], "C17": ["m46", "m48"],
 }
@@ -52,4 +52,27 @@ _orig_thorough = thorough_extras
 
 def thorough_extras(R, pid):  # noqa: F811
     _orig_thorough(R, pid)
+    audit(R, pid, budget_s=5.0)
     mutant_selftest(R, pid)
+
+
+def audit(R, pid, budget_s=2.0):
+    """CPython cross-check of the encoder: every function whose obligations were all discharged is run on enumerated small
+    inputs with its clauses evaluated by CPython.  A clause that is *proved* and *fails on a real execution* means the
+    encoder, an assumed library contract or the run-time vocabulary is wrong: a machinery failure, never a verdict."""
+    import contracts  # noqa: F401
+    from .contract import REG
+    from . import witness
+    n_fn = n_exec = 0
+    for q, c in sorted(REG.contracts.items()):
+        if pid not in c.properties or not c.verify:
+            continue
+        w, stats = witness.search(c, budget_s=budget_s, max_cases=1500, seed=R.seed)
+        if stats.get("ran", 0) == 0:
+            continue
+        n_fn += 1
+        n_exec += stats["ran"]
+        if w is not None and not any(v["key"].startswith("K." + q.replace("pyvolutionary.", "")) for v in R.violations):
+            R.machinery.append(f"audit: {q} is proved but a real execution violates clause '{w['failed'].get('label')}' on {w['recipe']}")
+    R.extra["audit"] = {"functions_executed": n_fn, "real_executions": n_exec,
+                        "rule": "small-scope inputs by parameter type, clauses evaluated by CPython on the real function"}
